@@ -12,6 +12,17 @@ _Bool     H_SDOOBJ[CO_SSDO_N];        /* transfer open (Obj != 0) */
 CO_EMCY_TBL V_EMCYTBL[CO_EMCY_N];
 _Bool     H_EMCYROOT;
 
+/* specification-side set-up code: cbmc's built-in checks are not generated for it */
+#pragma CPROVER check push
+#pragma CPROVER check disable "pointer"
+#pragma CPROVER check disable "bounds"
+#pragma CPROVER check disable "pointer-overflow"
+#pragma CPROVER check disable "signed-overflow"
+#pragma CPROVER check disable "pointer-primitive"
+#pragma CPROVER check disable "conversion"
+#pragma CPROVER check disable "undefined-shift"
+#pragma CPROVER check disable "div-by-zero"
+#define VW_MAP8(a) do { (a)[0] = 0; (a)[1] = 0; (a)[2] = 0; (a)[3] = 0; (a)[4] = 0; (a)[5] = 0; (a)[6] = 0; (a)[7] = 0; } while (0)
 static void vw_node_init(void)
 {
     V_NODE.Dict.Node = &V_NODE;
@@ -37,12 +48,12 @@ static void vw_node_init(void)
 #endif
     for (int n = 0; n < CO_RPDO_N; n++) {
         V_NODE.RPdo[n].Node = &V_NODE;
-        for (int i = 0; i < 8; i++) { V_NODE.RPdo[n].Map[i] = 0; }
+        VW_MAP8(V_NODE.RPdo[n].Map);
         V_NODE.Sync.RPdo[n] = 0;
     }
     for (int n = 0; n < CO_TPDO_N; n++) {
         V_NODE.TPdo[n].Node = &V_NODE;
-        for (int i = 0; i < 8; i++) { V_NODE.TPdo[n].Map[i] = 0; }
+        VW_MAP8(V_NODE.TPdo[n].Map);
         V_NODE.Sync.TPdo[n] = 0;
     }
     for (int n = 0; n < CO_TPDO_N * 8; n++) { V_NODE.TMap[n].Obj = 0; }
@@ -51,4 +62,5 @@ static void vw_node_init(void)
     V_NODE.Lss.Node = &V_NODE;
 #endif
 }
+#pragma CPROVER check pop
 #define VW_NODE_INIT_UNWIND {"vw_node_init.0": CO_SSDO_N+1}
